@@ -22,6 +22,37 @@ mod preprocessing;
 mod sampling;
 pub mod vector;
 
+#[cfg(feature = "verif-hooks")]
+pub mod verif_hooks {
+    //! Re-exports for the external verification harness (feature `verif-hooks`).
+    pub use crate::preprocessing::verif as pre;
+    pub use crate::preprocessing::{
+        TropicalEdge, TropicalGraph, TropicalSubgraphTable, TropicalSubgraphTableEntry,
+    };
+    pub use crate::sampling::verif as samp;
+    pub use crate::sampling::SamplingError;
+
+    impl<const D: usize> crate::SampleGenerator<D> {
+        pub fn verif_table(&self) -> &TropicalSubgraphTable {
+            &self.table
+        }
+
+        pub fn verif_signature(&self) -> &[Vec<isize>] {
+            &self.loop_signature
+        }
+
+        pub fn verif_from_parts(
+            loop_signature: Vec<Vec<isize>>,
+            table: TropicalSubgraphTable,
+        ) -> Self {
+            Self {
+                loop_signature,
+                table,
+            }
+        }
+    }
+}
+
 /// Maximum number of edges supported by momtrop.
 pub const MAX_EDGES: usize = 64;
 /// Maximum number of vertices supported by momtrop.
